@@ -67,7 +67,12 @@ class Env:
     self.v[name] = t
 
   def is_param(self, name):
-    return name in self.params
+    e = self
+    while e is not None:
+      if name in e.params:
+        return True
+      e = e.parent
+    return False
 
 
 def neg(p):
@@ -221,6 +226,11 @@ class Normalizer:
       return ('name', self._alias(e.id))
     if t is ast.Attribute:
       b = self.term(e.value, env)
+      while b[0] == 'replace':
+        hit = [v for k, v in b[2] if k == e.attr]
+        if hit:
+          return hit[0]
+        b = b[1]
       if b[0] == 'f':
         return ('f', b[1] + '.' + e.attr)
       if b[0] == 'name':
@@ -367,7 +377,9 @@ class Normalizer:
         name = '.'.join([head] + d[1:])
     args = e.args
     # method calls on terms
-    if isinstance(e.func, ast.Attribute) and (name is None or not name.startswith(('numpy', 'jax', 'itertools', 'math'))):
+    is_module_fn = bool(d) and name is not None and self.mod is not None and d[0] in self.mod.alias
+    if isinstance(e.func, ast.Attribute) and not is_module_fn and (
+        name is None or not name.startswith(('numpy', 'jax', 'itertools', 'math'))):
       recv = self.term(e.func.value, env)
       m = e.func.attr
       if m == 'any' and not args:
@@ -376,6 +388,8 @@ class Normalizer:
         return all_of(recv)
       if m in ('copy', 'astype', 'squeeze', 'flatten', 'ravel', 'tolist'):
         return recv
+      if m == 'replace' and not args:
+        return ('replace', recv, tuple(sorted((k.arg or '**', self.term(k.value, env)) for k in e.keywords)))
       return ('mcall', recv, m, tuple(self.term(a, env) for a in args))
     if name in ('numpy.any', 'jax.numpy.any', 'any'):
       return any_of(self.term(args[0], env))
@@ -411,6 +425,10 @@ class Normalizer:
       return ('len', self.term(args[0], env))
     if name in ('int', 'float', 'bool'):
       return self.term(args[0], env)
+    if isinstance(e.func, ast.Name):
+      bound = env.get(e.func.id)
+      if bound is not None and bound[0] == 'raw' and bound[1].startswith('lambda:'):
+        return ('call', 'lambda', tuple(self.term(a, env) for a in args), ())
     fname = name or ast.unparse(e.func)
     return ('call', fname, tuple(self.term(a, env) for a in args),
             tuple(sorted((k.arg or '**', self.term(k.value, env)) for k in e.keywords)))
@@ -495,6 +513,27 @@ class Normalizer:
     raise AnalysisError('cannot bind loop target %s over %s' % (ast.unparse(tgt), show(it)))
 
 
+def show_abs(t, depth=3):
+  """Depth-limited rendering: subterms below `depth` become an ellipsis."""
+  def cut(x, d):
+    if isinstance(x, frozenset):
+      return frozenset(cut(y, d) for y in x)
+    if not isinstance(x, tuple) or not x:
+      return x
+    if not isinstance(x[0], str):
+      return tuple(cut(y, d) for y in x)
+    if x[0] in ('c', 'f', 'name', 'loopidx'):
+      return x
+    if d <= 0:
+      return ('raw', '…')
+    if x[0] == 'call':
+      return ('call', x[1], tuple(cut(y, d - 1) for y in x[2]), tuple((k, cut(v, d - 1)) for k, v in x[3]))
+    if x[0] == 'replace':
+      return ('replace', cut(x[1], d - 1), tuple((k, cut(v, d - 1)) for k, v in x[2]))
+    return (x[0],) + tuple(cut(y, d - 1) if isinstance(y, (tuple, frozenset)) else y for y in x[1:])
+  return show(cut(t, depth))
+
+
 def show(t):
   if t is None:
     return ''
@@ -564,6 +603,8 @@ def show(t):
     return '%s.%s(%s)' % (show(t[1]), t[2], ','.join(show(a) for a in t[3]))
   if k == 'attr':
     return '%s.%s' % (show(t[1]), t[2])
+  if k == 'replace':
+    return '%s.replace(%s)' % (show(t[1]), ','.join('%s=%s' % (a, show(b)) for a, b in t[2]))
   if k == 'maskset':
     return 'maskset(%s; where %s := %s)' % (show(t[1]), show(t[2]), show(t[3]))
   if k == 'filter':
@@ -596,7 +637,7 @@ def _terminator(body):
 
 
 def sym_walk(fn_node, mod, params=None, on_raise=None, on_assign=None, on_expr=None,
-             on_return=None, drop_raise_negations=True, env=None):
+             on_return=None, drop_raise_negations=True, env=None, on_stmt=None):
   """Walk a function once, inlining local definitions, binding loop variables and
   tracking the path condition.  Callbacks receive (stmt, pc_atoms, env, N)."""
   N = Normalizer(mod)
@@ -610,6 +651,8 @@ def sym_walk(fn_node, mod, params=None, on_raise=None, on_assign=None, on_expr=N
   def walk(stmts, pc, env):
     pc = list(pc)
     for s in stmts:
+      if on_stmt:
+        on_stmt(s, pc, env, N)
       if isinstance(s, ast.If):
         test = truthy(N.term(s.test, env))
         walk(s.body, pc + [test], env.child_shared() if hasattr(env, 'child_shared') else env.child())
